@@ -61,7 +61,20 @@ class Stats:
         cls.branches = 0
 
 
+DEADLINE = None      # wall-clock deadline of the current configuration (set by the driver); checked cooperatively
+
+
+class DeadlineExceeded(BaseException):
+    pass
+
+
+def _deadline():
+    if DEADLINE is not None and time.time() > DEADLINE:
+        raise DeadlineExceeded()
+
+
 def _check(solver, *extra):
+    _deadline()
     Stats.queries += 1
     t0 = time.time()
     r = solver.check(*extra)
@@ -174,6 +187,7 @@ class Ctx:
         return self.solver.model()
 
     def branch(self, cond):
+        _deadline()
         cond = z3.simplify(cond)
         if z3.is_true(cond):
             return True
